@@ -131,7 +131,7 @@ func C13(r *core.Report) {
 		cnt := map[string]int{}
 		for _, rc := range findReadCalls(p, f) {
 			nReads++
-			key := fmt.Sprintf("%s#%s(%s)", f.Key, rc.Kind, core.ExprStr(rc.Buf))
+			key := fmt.Sprintf("%s#%s(%s)", f.Key, rc.Kind, core.KeyStr(f, rc.Buf))
 			cnt[key]++
 			if cnt[key] > 1 {
 				key = fmt.Sprintf("%s#%d", key, cnt[key])
@@ -325,7 +325,10 @@ func readComplete(g *core.Graph, info *types.Info, rc readCall, u *core.GNode) b
 	return false
 }
 
-func loadExemptTable(name string) map[string]string {
+// loadExemptTable reads an exemption table. The result is keyed by the canonical form of the entry keys (core/canon.go):
+// the committed `ckey` when the table carries one (written by `yfcheck -canontables` on the pinned tree), otherwise the
+// canonical form of `key` on the current tree. Lookups must use p.CanonKey(key).
+func loadExemptTable(p *core.Prog, name string) map[string]string {
 	out := map[string]string{}
 	b, err := os.ReadFile(filepath.Join(VerifDir, "tables", name))
 	if err != nil {
@@ -334,17 +337,38 @@ func loadExemptTable(name string) map[string]string {
 	var list []c12Exempt
 	if json.Unmarshal(b, &list) == nil {
 		for _, e := range list {
-			out[e.Key] = e.Reason
+			ck := e.CKey
+			if ck == "" {
+				ck = p.CanonKey(e.Key)
+			}
+			out[ck] = e.Reason
+			if len(e.Needs) > 0 {
+				cn := e.CNeeds
+				if len(cn) != len(e.Needs) {
+					cn = nil
+					root := rootOfKey(p, e.Key)
+					for _, w := range e.Needs {
+						cn = append(cn, p.CanonText(root, w))
+					}
+				}
+				exemptNeeds[ck] = cn
+				exemptNeedsText[ck] = e.Needs
+			}
 		}
 	}
 	return out
 }
 
+var exemptNeeds = map[string][]string{}     // canonical key -> canonical texts a dominating guard must mention
+var exemptNeedsText = map[string][]string{} // the readable form, for messages
+
+func rootOfKey(p *core.Prog, key string) string { return p.RootFuncOfKey(key) }
+
 // c13Downgrade (R3).
 func c13Downgrade(r *core.Report, scope []*core.Func) {
 	const rule = "C13.R3"
 	p := r.Prog
-	table := loadExemptTable("c13_exempt.json")
+	table := loadExemptTable(p, "c13_exempt.json")
 	used := map[string]bool{}
 	for _, f := range scope {
 		info := f.Pkg.TypesInfo
@@ -428,7 +452,7 @@ func c13Downgrade(r *core.Report, scope []*core.Func) {
 				}
 			}
 			if stored {
-				r.OK(rule, fmt.Sprintf("%s#err-of:%s#stored@%d", f.Key, core.Trunc(core.ExprStr(src.Fun), 60), e.ID), pos(r, e.Ast), "the error is recorded in the result / sent to the error channel")
+				r.OK(rule, fmt.Sprintf("%s#err-of:%s#stored@%d", f.Key, core.Trunc(core.KeyStr(f, src.Fun), 60), e.ID), pos(r, e.Ast), "the error is recorded in the result / sent to the error channel")
 				continue
 			}
 			for x := range region {
@@ -480,7 +504,7 @@ func c13Downgrade(r *core.Report, scope []*core.Func) {
 					}
 				}
 			}
-			key := fmt.Sprintf("%s#err-of:%s", f.Key, core.Trunc(core.ExprStr(src.Fun), 60))
+			key := fmt.Sprintf("%s#err-of:%s", f.Key, core.Trunc(core.KeyStr(f, src.Fun), 60))
 			cnt[key]++
 			if cnt[key] > 1 {
 				key = fmt.Sprintf("%s#%d", key, cnt[key])
@@ -653,7 +677,7 @@ func c13ExhaustionExits(r *core.Report, scope []*core.Func) {
 				continue
 			}
 			n++
-			k := fmt.Sprintf("%s#loop[%s]-exhaustion-exit-reported", f.Key, core.ExprStr(exhaust))
+			k := fmt.Sprintf("%s#loop[%s]-exhaustion-exit-reported", f.Key, core.KeyStr(f, exhaust))
 			// objects of the other conjuncts (counter / bound)
 			others := map[types.Object]bool{}
 			for _, c := range cj {
